@@ -78,6 +78,21 @@ func (w *verifRecorder) all() []byte {
 }
 
 var errVerifWriter = errors.New("verif: injected writer failure")
+
+// a writer error that declares itself temporary (EAGAIN, EINTR, a timeout):
+// "any writer error" includes these
+type verifTempErr struct{}
+
+func (verifTempErr) Error() string   { return "verif: injected temporary writer failure" }
+func (verifTempErr) Temporary() bool { return true }
+func (verifTempErr) Timeout() bool   { return true }
+
+func verifWriterErr() error {
+	if verifChoice("errkind", 2) == 1 {
+		return verifTempErr{}
+	}
+	return errVerifWriter
+}
 var errVerifCallback = errors.New("verif: injected callback failure")
 
 type verifRec struct {
@@ -722,7 +737,7 @@ func verifHarness_C16_faults() {
 	good := &verifRecorder{failAt: -1}
 	nops := 1 + verifChoice("ops", verifC16Ops())
 	// the header is one write, every block four
-	bad := &verifRecorder{failAt: verifChoice("failAt", 2+4*nops), failErr: errVerifWriter}
+	bad := &verifRecorder{failAt: verifChoice("failAt", 2+4*nops), failErr: verifWriterErr()}
 	ops := make([]int, nops)
 	vals := make([]verifRec, nops)
 	for i := range ops {
@@ -748,7 +763,7 @@ func verifHarness_C16_faults() {
 	sawErr := false
 	if err != nil {
 		verifAssert(bad.failed, "C16:error-only-when-the-writer-failed")
-		verifAssert(errors.Is(err, errVerifWriter), "C16:error-wraps-the-writer-error")
+		verifAssert(errors.Is(err, bad.failErr), "C16:error-wraps-the-writer-error")
 		sawErr = true
 	} else {
 		// "a fault-free run with the same sync marker": re-mark the twin's output
@@ -764,7 +779,7 @@ func verifHarness_C16_faults() {
 			if bad.failed && !wasFailed {
 				verifAssert(err != nil, "C16:call-that-triggered-the-failed-write-returns-an-error")
 				if err != nil {
-					verifAssert(errors.Is(err, errVerifWriter), "C16:error-wraps-the-writer-error")
+					verifAssert(errors.Is(err, bad.failErr), "C16:error-wraps-the-writer-error")
 				}
 				sawErr = true
 			} else if !bad.failed {
@@ -830,15 +845,15 @@ func verifHarness_C16_filewriter() {
 	verifAssume(fw.WriteHeader(good) == nil)
 	verifAssume(fw.WriteBlock(good, rows, payload) == nil)
 	full := good.all()
-	bad := &verifRecorder{failAt: verifChoice("failAt", 5), failErr: errVerifWriter}
+	bad := &verifRecorder{failAt: verifChoice("failAt", 5), failErr: verifWriterErr()}
 	err = fw.WriteHeader(bad)
 	if bad.failed {
-		verifAssert(err != nil && errors.Is(err, errVerifWriter), "C16:writeheader-returns-the-writer-error")
+		verifAssert(err != nil && errors.Is(err, bad.failErr), "C16:writeheader-returns-the-writer-error")
 		verifReach("header-fault")
 	} else {
 		verifAssert(err == nil, "C16:no-error-without-a-fault")
 		err = fw.WriteBlock(bad, rows, payload)
-		verifAssert(bad.failed && err != nil && errors.Is(err, errVerifWriter), "C16:writeblock-returns-the-writer-error")
+		verifAssert(bad.failed && err != nil && errors.Is(err, bad.failErr), "C16:writeblock-returns-the-writer-error")
 		verifReach("block-fault")
 	}
 	verifAssert(bad.afterFail == 0, "C16:no-write-attempted-after-the-failed-one")
